@@ -615,6 +615,16 @@ int yr_arena_load_stream(YR_STREAM* stream, YR_ARENA** arena)
 
     memcpy(&ref, b->data + reloc_ref.offset, sizeof(ref));
 
+    // The reference stored at that place must point into one of the buffers
+    // that were loaded, yr_arena_ref_to_ptr takes that for granted.
+    if (!YR_ARENA_IS_NULL_REF(ref) &&
+        (ref.buffer_id >= new_arena->num_buffers ||
+         ref.offset > new_arena->buffers[ref.buffer_id].used))
+    {
+      yr_arena_release(new_arena);
+      return ERROR_CORRUPT_FILE;
+    }
+
     void* reloc_ptr = yr_arena_ref_to_ptr(new_arena, &ref);
 
     memcpy(b->data + reloc_ref.offset, &reloc_ptr, sizeof(reloc_ptr));
